@@ -109,6 +109,11 @@ func init() {
 		vm.Set("s", []int8{1, 2})
 		return script(vm, `try { s.pop(); 'ok ' + s.length } catch (e) { 'caught ' + typeof e }`)
 	}
+	w["c16_map_key_go_syntax"] = func() (string, error) {
+		vm := otto.New()
+		vm.Set("m", map[int]string{8: "a"})
+		return script(vm, `String(m["010"]) + " " + ("0x8" in m) + " " + (function(){ try { m["+8"] = "b"; return "stored" } catch (e) { return "caught " + e.name } })()`)
+	}
 	w["c16_map_int_key"] = func() (string, error) {
 		vm := otto.New()
 		vm.Set("m", map[int]string{1: "a"})
